@@ -16,6 +16,7 @@ used for its property. Round 3: 12 more (C01 C02 C06 C07 C11 C12 C13 C15 C16 C17
 the titles of the changes already used. Round 4: 8 more (C03 C04 C05 C08 C09 C10 C14 C18). Round 5: 11 more
 (C01 C02 C06 C07 C11 C12 C13 C15 C16 C19 C20). Round 6: 9 more (C03 C04 C05 C08 C09 C10 C14 C17 C18).
 Round 7: 10 more (C06 C07 C08 C09 C11 C12 C13 C18 C19 C20), each told to find a mechanism unlike all earlier ones.
+Round 8: 10 more (C01 C02 C03 C04 C05 C10 C14 C15 C16 C17) with a list of the dimensions along which a change can hide.
 Every returned change was re-confirmed in a new scratch worktree by
 `tools/confirm_seed.sh` / `confirm_seed_unit.sh` (patch applies, 33+9 tests pass with it, the
 demonstration fails with it and passes without it; for the two memory-ordering changes the
@@ -30,9 +31,9 @@ the same change independently (C02/C03, C06/C07, C08/C11).
 for n,p,needs,c in rows:
     new+=f"| {n} | {p} | {needs.replace('|','/')} | {c} |\\n".replace('\\n','\n')
 new+='''
-All 83 are caught now, on every run, by the quick tier of the property they break. **Thirty
+All 93 are caught now, on every run, by the quick tier of the property they break. **Thirty-one
 were missed when first confirmed** (eleven of rounds 1-2, seven of round 3, two of round 4, four of
-round 5, one of round 6, five of round 7) and led to strengthening:
+round 5, one of round 6, five of round 7, one of round 8) and led to strengthening:
 
 * *C01-no-fold-after-normalize* (only U+0130 is affected) and *R2-C14-std-is-uppercase* (final
   sigma, long s, micro sign, title-case digraphs): hand-picked alphabets cannot anticipate which
@@ -126,6 +127,8 @@ round 5, one of round 6, five of round 7) and led to strengthening:
   stream's matching indices were a superset of the old stream's - the item sets of the two streams
   are now complementary), *R7-C13-notify-only-on-progress* (event loop around a held writer),
   *R7-C18-cancel-lost-in-sequential-branch* (half-sorted shapes).
+* Round 8: *R8-C10-prefix-bonus-unsaturated* - the long-needle families now also run with the
+  prefix preference at every start offset 0..=7 (family `long-needle/prefix-offset`).
 * Confirming *C13-no-retry-for-zero-timeout* exposed a harness bug (a parked thread of a
   deadlocked execution kept a global lock; the next execution stalled and the run ended as a
   machinery failure instead of a verdict) - fixed by a pool of reference matchers.
